@@ -26,6 +26,24 @@ type c05Case struct {
 	N      int64
 	Lo, Hi uint64 `json:",omitempty"`
 	Seed   int64  `json:",omitempty"`
+	Expr   int    `json:",omitempty"` // stream-expr: index into c05Exprs
+}
+
+// several dice in ONE evaluation: every die is a fresh draw of its own, whatever the dice before it were told to do.
+// A term is (min, max) with 0 = absent; the value of the program is the sum of the clamped faces.
+var c05Exprs = []struct {
+	tmpl  string // %[1]d = N
+	terms [][2]int64
+}{
+	{"d%[1]dmin%[1]d + d%[1]d", [][2]int64{{-1, 0}, {0, 0}}}, // -1 = N
+	{"d%[1]dmax1 + d%[1]d", [][2]int64{{0, 1}, {0, 0}}},
+	{"d%[1]d + d%[1]dmin%[1]d + d%[1]d", [][2]int64{{0, 0}, {-1, 0}, {0, 0}}},
+	{"x = d%[1]dmax1; x + d%[1]d", [][2]int64{{0, 1}, {0, 0}}},
+	{"x = d%[1]dmin%[1]d; y = d%[1]d; x + y", [][2]int64{{-1, 0}, {0, 0}}},
+	{"i = 0; s = 0; while i < 3 { if i == 0 { s = s + d%[1]dmax1 } else { s = s + d%[1]d }; i = i + 1 }; s", [][2]int64{{0, 1}, {0, 0}, {0, 0}}},
+	{"d%[1]dmin2 + d%[1]dmax2 + d%[1]d", [][2]int64{{2, 0}, {0, 2}, {0, 0}}},
+	{"[d%[1]dmin%[1]d, d%[1]d, d%[1]d].sum()", [][2]int64{{-1, 0}, {0, 0}, {0, 0}}},
+	{"func g(){ d%[1]dmax1 + d%[1]d }; g() + d%[1]d", [][2]int64{{0, 1}, {0, 0}, {0, 0}}},
 }
 
 // ---- independent PCG (128-bit LCG, XSL-RR output), written from the PCG paper / x/exp/rand constants
@@ -135,6 +153,19 @@ func c05Enumerate(tier string, seed int64, emit func(string, any)) {
 	for s := int64(1); s <= 8; s++ {
 		for _, n := range []int64{1, 2, 6, 7, 20, 100, 1000, 1<<31 - 1, 1 << 40, math.MaxInt64 - 1} {
 			emit("stream: seeded VM vs reference PCG", c05Case{Kind: "stream", N: n, Seed: s})
+		}
+	}
+	for s := int64(1); s <= 4; s++ {
+		for _, n := range []int64{2, 6, 20, 100} {
+			for e := range c05Exprs {
+				emit("stream: several dice in one evaluation", c05Case{Kind: "stream-expr", N: n, Seed: s, Expr: e})
+			}
+		}
+	}
+	// VMs that were never given a seed share ONE process-wide generator: their dice are successive draws of it (never the same draws twice)
+	for s := int64(1); s <= 6; s++ {
+		for _, n := range []int64{6, 100, 1 << 40} {
+			emit("stream: unseeded VMs on the shared generator", c05Case{Kind: "stream-shared", N: n, Seed: s})
 		}
 	}
 	// the reference algorithm itself is uniform: complete enumeration at 16-bit width
@@ -269,6 +300,70 @@ func c05Run(raw json.RawMessage) harn.Result {
 		}
 		res.Stats["words"] = words
 		res.Sample = fmt.Sprintf("n=%d: %d words in %d windows through _roll64 vs reference", n, words, len(windows))
+	case "stream-shared":
+		ds.VerifSeedGlobal(uint64(c.Seed) * 7919)
+		b0, _ := ds.VerifGlobalSource().MarshalBinary()
+		st := u128{binary.BigEndian.Uint64(b0[:8]), binary.BigEndian.Uint64(b0[8:])}
+		vms := []*ds.Context{drv.NewVM(drv.AllOn()), drv.NewVM(drv.AllOn()), drv.NewVM(drv.AllOn())}
+		src := fmt.Sprintf("4d%d", c.N)
+		for turn := 0; turn < 6; turn++ {
+			vm := vms[turn%3]
+			if err := vm.Run(src); err != nil {
+				viol("C05:stream:error", err.Error())
+				return res
+			}
+			var want []uint64
+			for i := 0; i < 4; i++ {
+				want = append(want, refRoll64(&st, uint64(c.N)))
+			}
+			got := atoiAllBig(vm.DetailSpans[0].Text)
+			same := len(got) == 4
+			for i := 0; same && i < 4; i++ {
+				same = got[i] == want[i]
+			}
+			if !same {
+				viol("C05:stream:shared", fmt.Sprintf("global seed %d: unseeded VM #%d (turn %d) rolled %v for %s; the shared generator's next draws are %v (unseeded VMs must consume successive draws of the one shared generator)", c.Seed, turn%3, turn, got, src, want))
+				return res
+			}
+		}
+		res.Sample = fmt.Sprintf("3 unseeded VMs alternating on %s vs the shared reference stream", src)
+	case "stream-expr":
+		cfg := drv.AllOn()
+		cfg.Seed = c.Seed
+		vm := drv.NewVM(cfg)
+		seedBytes := drv.SeedBytes(c.Seed)
+		st := u128{binary.BigEndian.Uint64(seedBytes[:8]), binary.BigEndian.Uint64(seedBytes[8:])}
+		e := c05Exprs[c.Expr]
+		src := fmt.Sprintf(e.tmpl, c.N)
+		if err := vm.Run(src); err != nil {
+			viol("C05:stream:error", src+": "+err.Error())
+			return res
+		}
+		want := int64(0)
+		var faces []int64
+		for _, t := range e.terms {
+			f := int64(refRoll64(&st, uint64(c.N)))
+			faces = append(faces, f)
+			mn, mx := t[0], t[1]
+			if mn == -1 {
+				mn = c.N
+			}
+			if mx != 0 && f > mx {
+				f = mx
+			}
+			if mn != 0 && f < mn {
+				f = mn
+			}
+			want += f
+		}
+		if got, ok := vm.Ret.ReadInt(); !ok || int64(got) != want {
+			viol("C05:stream:faces", fmt.Sprintf("seed %d: %q gives %s; the reference stream draws the faces %v, i.e. %d (every die of one evaluation is a fresh, unconstrained draw)", c.Seed, src, vm.Ret.ToString(), faces, want))
+		}
+		after, _ := vm.GetCurSeed()
+		if binary.BigEndian.Uint64(after[:8]) != st.hi || binary.BigEndian.Uint64(after[8:]) != st.lo {
+			viol("C05:stream:state", fmt.Sprintf("seed %d: generator state after %q differs from the reference", c.Seed, src))
+		}
+		res.Sample = fmt.Sprintf("seed %d %s vs reference stream", c.Seed, src)
 	case "stream":
 		cfg := drv.AllOn()
 		cfg.Seed = c.Seed
